@@ -9,6 +9,7 @@ import (
 	"encoding/binary"
 	"fmt"
 	"log/slog"
+	"strings"
 	"sync"
 	"time"
 
@@ -87,6 +88,13 @@ func openSessionToken(token string, tokenKey []byte, aad []byte) (string, [sessi
 		if err != nil {
 			return "", zero, 0, &SessionLostError{Reason: sessionLostMalformed}
 		}
+	}
+	// Apart from the tolerated trailing padding, accept only the exact text
+	// sealSessionToken produced: encoding/base64 skips CR/LF and ignores the
+	// unused bits of the final character, so an altered token text would
+	// otherwise still decode to the sealed bytes and resume the session.
+	if base64.RawURLEncoding.EncodeToString(raw) != strings.TrimRight(token, "=") {
+		return "", zero, 0, &SessionLostError{Reason: sessionLostMalformed}
 	}
 	if len(raw) < 1+chacha20poly1305.NonceSizeX+chacha20poly1305.Overhead {
 		return "", zero, 0, &SessionLostError{Reason: sessionLostMalformed}
